@@ -38,3 +38,27 @@ def run(ctx):
         if set(res.values()) == {"sat", "unsat"}:
             ctx.violation("contradiction:%s:embed%s" % (logic, ":const>2^53" if any(int(x) > 2**53 for x in __import__("re").findall(r"[0-9]{16,}", text)) else ""),
                           "the same assertions are answered %s" % res, dict(script=text, answers=res))
+
+    # directed family: uninterpreted symbols over Bool arguments (Booleans seen only by the theory solver), default vs
+    # non-incremental (SatELite preprocessing) vs lookahead
+    bu = C02.bool_uf_scripts(ctx.rng, 70 if ctx.quick else 1400)
+    cfgs = ["default", "non-incremental", "no-subst", "proofs"]
+    bu = [(t, lg) for t, lg in bu if "(push" not in t and t.count("(check-sat)") == 1]     # non-incremental mode: one query
+    jobs = [(t, c, answercheck.CONFIGS[c], None, 10, False, False, lg) for t, lg in bu for c in cfgs]
+    results = answercheck.run_jobs(jobs)
+    for i, (t, lg) in enumerate(bu):
+        d = {}
+        for j, c in enumerate(cfgs):
+            rc, res, out, err, tt, judged = results[i * len(cfgs) + j]
+            a = answercheck.answers_of(t, res, out) if rc in (0, 1) else None
+            if a:
+                d[c] = [x[1] for x in a]
+        ctx.case(key=("bool-uf", t), nontrivial=len(d) > 1, kind="bool-uf:%d-configs" % len(d))
+        cs = sorted(d)
+        for x in range(len(cs)):
+            for y in range(x + 1, len(cs)):
+                for k, (p, q) in enumerate(zip(d[cs[x]], d[cs[y]])):
+                    if {p, q} == {"sat", "unsat"}:
+                        ctx.violation("contradiction:%s:%s+%s:bool-uf%s" % (lg, cs[x], cs[y], ":incremental" if "(push" in t else ""),
+                                      "configurations %s and %s give contradicting answers (%s / %s) on check %d (Bool-argument uninterpreted symbols)" % (cs[x], cs[y], p, q, k + 1),
+                                      dict(script=t, configs=[cs[x], cs[y]], answers=[d[cs[x]], d[cs[y]]]))
